@@ -15,7 +15,7 @@ def sh(cmd, cwd=None, env=None, timeout=3600):
 
 
 def main():
-    src, sid, checks = sys.argv[1], sys.argv[2], sys.argv[3].split(',')
+    src, sid, checks = os.path.abspath(sys.argv[1]), sys.argv[2], sys.argv[3].split(',')
     tier = 'quick'
     if '--tier' in sys.argv:
         tier = sys.argv[sys.argv.index('--tier') + 1]
